@@ -7,20 +7,37 @@ MATCH = dict(name="match", pkg="./integration/", test="TestVerifMatch", files=IN
              nq=60000, nt=600000)
 
 PROPS = {
+    "C18": dict(
+        lean_modules=["L4.Props.C18", "L4.Expect.C18"],
+        stages=[dict(name="codec", pkg="./integration/", test="TestVerifCodec", files=INTEG + ["integration/verif_codec_test.go"], nq=30000, nt=600000)],
+        level_text='Both inverse laws and exact-length rejection are kernel-checked once for every fixed layout and instantiated for the fixed-size RDP / WireGuard / OpenVPN types; the Go FromBytes / ToBytes are tied to the layouts (and WinBox to its Go-shaped model) by a field-level differential, and both laws are evaluated on the implementation for every exported type, over all lengths around the accepted sizes.',
+        level_note='Trusted: Lean kernel, harness + driver, encoding/binary. Partial: WinBox MessageAuth and the OpenVPN auth/crypt/crypt2/WrappedKey types have no round-trip theorem (WinBox: Go-shaped model + differential + oracle; OpenVPN keyed types: oracle only).',
+        rule='random byte strings of length L+d (d in {0,±1,±2,5,64,-L}) around every accepted size of 12 message types, structurally plausible WinBox messages, generated well-formed WinBox messages (user names 1-255); non-trivial = parser accepted or model-covered type; distinct = distinct outputs',
+        assumptions=['encoding/binary.Read/Write of fixed-size structs is the layout codec (sampled by the differential)'],
+    ),
     "C14": dict(
-        lean_modules=["L4.Props.C14"],
+        lean_modules=["L4.Props.C14", "L4.Expect.C14"],
         stages=[dict(MATCH, only_sigs=["spec-mismatch:"])],
-        level_text="x", level_note="y",
+        level_text="Kernel-checked equivalences `model verdict = yes ↔ declarative wire predicate` (ssh, proxy_protocol, regexp, clock, ip, not, dns decision table and message conditions, wireguard); every matcher's executable model (incl. postgres, socks4/5, winbox, rdp, openvpn plain, tls framing, http request-line test) is tied to the Go Match by a verdict differential over structured, corrupted and random messages, and the Go verdict on generated complete messages is compared with reference predicates stated by the generators.",
+        level_note='Trusted: Lean kernel, harness + driver. Parameters (not modelled): Go regexp (anchored literal prefixes only in the differential), miekg/dns Unpack, net/http.ReadRequest + caddyhttp sub-matchers, OpenVPN keyed modes, tls handshake sub-matchers (C07). Partial: postgres/socks/winbox/rdp/openvpn/http have model + differential + generator-stated expectation but no `↔ Spec` theorem yet.',
+        rule="messages built from each protocol's wire definition with configured filters (commands, ports, CIDRs, user names, cookie hashes, DNS allow/deny rules, reserved bytes, time windows, address ranges), single-field corruptions, 0-2 random mutations, evaluated on the whole message and on ~26 prefixes; non-trivial = verdict other than `more`; distinct = distinct (case, verdict) lines",
+        assumptions=['regexp filters in generated configurations are anchored literal prefixes', 'DNS rule matching reference = exact class/type/name equality (no regexp rules generated)'],
     ),
     "C06": dict(
-        lean_modules=["L4.Props.C06"],
+        lean_modules=["L4.Props.C06", "L4.Expect.C06"],
         stages=[dict(MATCH, only_sigs=["socket-read:", "nondeterministic:", "no-not-stable:", "fragment-rejected:", "set-not-conjunction"])],
-        level_text="x", level_note="y",
+        level_text='Kernel-checked: in matching mode no read pattern reaches the socket or changes the buffer and unfreeze restores the cursor (any matcher); verdict stability, `no` stays `no` and fragmentation safety for every ReadFull-only matcher program, instantiated for ssh, xmpp, postgres, socks4, socks5, proxy_protocol, regexp, tls. Tied to the code by the verdict differential over all sampled prefixes; purity, determinism, monotonicity, routed re-evaluation of fragmented messages on one Connection, and conjunction of matcher sets are judged on the implementation.',
+        level_note="Trusted: Lean kernel, harness + driver; io.ReadFull / io.ReadAtLeast on a frozen Connection behave as Prog.run (sampled op-by-op by C01's conn differential, not proved). Known finding: WinBox two-chunk fragments (kernel-checked witness winbox_fragment_rejected_violation). Partial: http's verdict after the request-line test depends on net/http (oracle only); rdp, dns/tcp, openvpn/tcp, winbox are exact-length matchers (yes is not stable by design).",
+        rule='as C14; in addition every message that matches whole (≤ 8192 bytes) is delivered through RouteList.Compile in all two-way splits (≤ 160 bytes) or three random splits, and 1 in 8 messages is evaluated in a two-matcher set; non-trivial = verdict other than `more`',
+        assumptions=[],
     ),
     "C04": dict(
         lean_modules=["L4.Props.C04", "L4.Expect.C04"],
         stages=[dict(MATCH, only_sigs=["panic:", "alloc:"])],
-        level_text="x", level_note="y",
+        level_text="Kernel-checked totality (never `panic`, read buffers ≤ 32 × MaxMatchingBytes) for every byte string of the models of ssh, xmpp, proxy_protocol, regexp, socks4, socks5, postgres (ReadString / parameter loops), tls framing, wireguard, winbox (chunk loop, delimiter search) and http's request-line indexing; the models mirror each Go index / slice / make with checked primitives and are bound to the code by regenerated index/slice/make censuses and the verdict differential; every matcher incl. rdp, dns, openvpn, quic-free set and the HTTP/2 path is run under recover() with measured allocation.",
+        level_note='Trusted: Lean kernel, harness + driver, third-party parsers (cryptobyte, miekg/dns, net/http, x/net/http2, hpack) whose panic-freedom is only sampled. Partial: rdp body, dns and openvpn framing have models and differential but no totality theorem yet; quic matcher and the parsing handlers (socks5, tls, proxy_protocol header parser) are library code: not covered by a theorem.',
+        rule='as C14 (every generated message and ~26 prefixes per message, TCP- and UDP-like addresses); non-trivial = verdict other than `more`',
+        assumptions=['runtime.MemStats.TotalAlloc delta around Match measures the allocation of the call (single goroutine)'],
     ),
     "C01": dict(
         lean_modules=["L4.Props.C01", "L4.Expect.C01"],
